@@ -1,2 +1,19 @@
 import FpgoVerif.Props.C11
 /-! `#print axioms` for every property theorem of C11; parsed by `check`. -/
+#print axioms FpgoVerif.C11.C11_lazy
+#print axioms FpgoVerif.C11.C11_lazy_initial
+#print axioms FpgoVerif.C11.C11_once
+#print axioms FpgoVerif.C11.C11_once_static
+#print axioms FpgoVerif.C11.C11_once_log
+#print axioms FpgoVerif.C11.C11_left_identity
+#print axioms FpgoVerif.C11.C11_right_identity
+#print axioms FpgoVerif.C11.C11_assoc
+#print axioms FpgoVerif.C11.C11_laws_eval
+#print axioms FpgoVerif.C11.C11_laws_subscribe
+#print axioms FpgoVerif.C11.C11_subscribe_once
+#print axioms FpgoVerif.C11.C11_subscribe_nil
+#print axioms FpgoVerif.C11.C11_handlers
+#print axioms FpgoVerif.C11.C11_eval_ignores_handlers
+#print axioms FpgoVerif.C11.C11_yieldFromIO
+#print axioms FpgoVerif.C11.C11_model_refines_spec
+#print axioms FpgoVerif.C11.C11_skeleton
